@@ -27,6 +27,9 @@ A *unit template* (/verif/units/<name>.u.c) is C text with directives:
      (a template-id in a parameter type, `RefVectorOf<KVStringPair>& toFill`, is mangled to `RefVectorOf_KVStringPair`: R17;
       the unit supplies that type)
      constref-byvalue   (`const T& x` parameters of scalar type are passed by value; the body must not take &x)
+     (QUALNAME `C::C` = a CONSTRUCTOR, R20: emitted as `void C_C(params)`; the member-initialiser list becomes leading statements
+      of the body in source order: `fM(e)` -> `fM = (e);`, `fM()` -> `fM = 0;`, a base-class initialiser `Base(args)` stays a call
+      `Base(args);` for the unit to rename with `call` / `sub`; see contracts/cm_node.inc, units/cm_node_*.u.c)
      sub RE => REPL | sub* RE => REPL | drop-loop-contract-ok
      streamops VAR [PUT GET]   every statement `VAR << e1 << e2 ...;` / `VAR >> l1 >> l2 ...;` (C++ stream operator chains on the
                object VAR, e.g. an XSerializeEngine&) becomes `{ PUT(VAR, e1); PUT(VAR, e2); }` / `{ GET(VAR, l1); GET(VAR, l2); }`
